@@ -52,10 +52,13 @@ struct FitOut {
     centroids: Vec<Vec<f64>>,
     pstatus: &'static str,
     pred: Vec<f64>,
+    /// the rows actually handed to predict (as cast to the working precision): the caller's
+    /// query rows plus, after a fit that ended with a memberless cluster, the probe rows
+    q_used: Rows,
 }
 
 fn empty_out(status: &'static str) -> FitOut {
-    FitOut { status, y: vec![], size: vec![], centroids: vec![], pstatus: "none", pred: vec![] }
+    FitOut { status, y: vec![], size: vec![], centroids: vec![], pstatus: "none", pred: vec![], q_used: vec![] }
 }
 
 /// read the private state of a fitted model through its serde serialisation
@@ -78,6 +81,35 @@ fn dump(v: &Value) -> (Vec<i64>, Vec<i64>, Vec<Vec<f64>>) {
     (ints(&v["_y"]), ints(&v["size"]), cents)
 }
 
+/// Second step of the fit-then-predict protocol.  When the fitted model reports a cluster
+/// without members (size 0), predict is also called on probe rows derived from the model itself:
+/// every reported centroid exactly as returned by the serde dump, and the midpoints between each
+/// memberless centroid and every other centroid / (up to 16) training rows.  Pure input
+/// generation for the second call; whether the labels are right is decided by the specification.
+fn probe_rows(x: &Rows, size: &[i64], cents: &Rows) -> Rows {
+    let mut p: Rows = Vec::new();
+    if !size.iter().any(|&s| s == 0) || cents.len() != size.len() {
+        return p;
+    }
+    for c in cents {
+        p.push(c.clone());
+    }
+    for (e, _) in size.iter().enumerate().filter(|(_, &s)| s == 0) {
+        for (o, c) in cents.iter().enumerate() {
+            if o != e && c.len() == cents[e].len() {
+                p.push(c.iter().zip(cents[e].iter()).map(|(a, b)| (a + b) / 2.0).collect());
+            }
+        }
+        for r in x.iter().take(16) {
+            if r.len() == cents[e].len() {
+                p.push(r.iter().zip(cents[e].iter()).map(|(a, b)| (a + b) / 2.0).collect());
+            }
+        }
+    }
+    p.retain(|r| r.iter().all(|v| v.is_finite()));
+    p
+}
+
 macro_rules! fit_as {
     ($t:ty, $x:expr, $q:expr, $k:expr, $mi:expr) => {{
         let x: Rows = $x.clone();
@@ -86,14 +118,17 @@ macro_rules! fit_as {
         let mi: usize = $mi;
         let r = watchdog(30, move || {
             let xm: Vec<Vec<$t>> = x.iter().map(|r| r.iter().map(|&v| v as $t).collect()).collect();
-            let qm: Vec<Vec<$t>> = q.iter().map(|r| r.iter().map(|&v| v as $t).collect()).collect();
             let xd = DenseMatrix::from_2d_vec(&xm);
             let fit = KMeans::<$t>::fit(&xd, KMeansParameters::default().with_k(k).with_max_iter(mi));
             match fit {
                 Err(_) => empty_out("err"),
                 Ok(model) => {
                     let (y, size, centroids) = dump(&serde_json::to_value(&model).unwrap_or(Value::Null));
-                    let mut out = FitOut { status: "ok", y, size, centroids, pstatus: "none", pred: vec![] };
+                    let mut qall: Rows = q.clone();
+                    qall.extend(probe_rows(&x, &size, &centroids));
+                    let qm: Vec<Vec<$t>> = qall.iter().map(|r| r.iter().map(|&v| v as $t).collect()).collect();
+                    let q_used: Rows = qm.iter().map(|r| r.iter().map(|&v| v as f64).collect()).collect();
+                    let mut out = FitOut { status: "ok", y, size, centroids, pstatus: "none", pred: vec![], q_used };
                     if !qm.is_empty() {
                         let qd = DenseMatrix::from_2d_vec(&qm);
                         match guard(|| model.predict(&qd)) {
@@ -130,8 +165,14 @@ macro_rules! fit_direct {
             Ok(Err(_)) => empty_out("err"),
             Ok(Ok(model)) => {
                 let (y, size, centroids) = dump(&serde_json::to_value(&model).unwrap_or(Value::Null));
-                let mut out = FitOut { status: "ok", y, size, centroids, pstatus: "none", pred: vec![] };
-                match guard(|| model.predict(&xd)) {
+                let xf: Rows = $x.iter().cloned().collect();
+                let mut qall: Rows = xf.clone();
+                qall.extend(probe_rows(&xf, &size, &centroids));
+                let qm: Vec<Vec<$t>> = qall.iter().map(|r| r.iter().map(|&v| v as $t).collect()).collect();
+                let q_used: Rows = qm.iter().map(|r| r.iter().map(|&v| v as f64).collect()).collect();
+                let qd = DenseMatrix::from_2d_vec(&qm);
+                let mut out = FitOut { status: "ok", y, size, centroids, pstatus: "none", pred: vec![], q_used };
+                match guard(|| model.predict(&qd)) {
                     Ok(Ok(p)) => {
                         out.pstatus = "ok";
                         out.pred = p.iter().map(|&v| v as f64).collect();
@@ -179,6 +220,14 @@ fn fit_event_off(run: i64, cls: &str, prec: u32, lattice: bool, x: &Rows, q: &Ro
     let offmax: i64 = off.iter().fold(0i64, |a, &v| a.max(v.abs() as i64));
     e.as_object_mut().unwrap().insert("offmax".into(), json!(offmax));
     e.as_object_mut().unwrap().insert("off".into(), json!(off.iter().map(|&v| v as i64).collect::<Vec<i64>>()));
+    // the rows predict really saw (shifted back by the offset: an exact subtraction)
+    let q_seen: Rows = if o.q_used.is_empty() {
+        q.clone()
+    } else {
+        o.q_used.iter().map(|r| r.iter().enumerate().map(|(j, &v)| v - off.get(j).copied().unwrap_or(0.0)).collect()).collect()
+    };
+    let q = &q_seen;
+    let q_all_int = q.iter().all(|r| r.iter().all(|&v| int_exact(v).is_some()));
     if o.status == "ok" {
         let back: Rows = o
             .centroids
@@ -188,7 +237,7 @@ fn fit_event_off(run: i64, cls: &str, prec: u32, lattice: bool, x: &Rows, q: &Ro
         let cfx = q12.m(&back);
         let c8 = q8.m(&back);
         let qq8 = q8.m(q);
-        let qi: Vec<Vec<i64>> = if lattice {
+        let qi: Vec<Vec<i64>> = if lattice && q_all_int {
             q.iter().map(|r| r.iter().map(|&v| int_exact(v).unwrap_or(0)).collect()).collect()
         } else {
             vec![]
@@ -202,7 +251,7 @@ fn fit_event_off(run: i64, cls: &str, prec: u32, lattice: bool, x: &Rows, q: &Ro
         m.insert("size".into(), json!(o.size));
         m.insert("cfx".into(), json!(cfx));
         m.insert("pstatus".into(), json!(o.pstatus));
-        m.insert("exact".into(), json!(lattice && prec == 64));
+        m.insert("exact".into(), json!(lattice && prec == 64 && q_all_int));
         m.insert("Q".into(), json!(qi));
         m.insert("Q8".into(), json!(qq8));
         m.insert("c8".into(), json!(c8));
@@ -750,6 +799,7 @@ fn refit(inp: &str, out: &mut Out, run: &mut i64) {
             for i in 0..reps {
                 let mi = [1usize, 2, 3, 100][i % 4];
                 let o = fit_direct!(f64, &xc, k, mi);
+                // (probe rows are a function of the outcome, so they are attached to every distinct one)
                 let key = format!("{}|{}|{:?}|{:?}|{:?}|{:?}", mi, o.status, o.y, o.size,
                                   o.centroids.iter().map(|c| c.iter().map(|v| v.to_bits()).collect::<Vec<u64>>()).collect::<Vec<_>>(),
                                   o.pred.iter().map(|v| v.to_bits()).collect::<Vec<u64>>());
